@@ -561,6 +561,24 @@ func derivedAddrs(a *ssa.Alloc) (set map[ssa.Value]bool, escapes bool) {
 					escapes = true
 				}
 			case *ssa.If:
+			case *ssa.MakeClosure:
+				// captured by a function literal that is only ever deferred by this function: the
+				// variable is still reachable by nobody else, provided the literal keeps to the same
+				// discipline with its free variable (it runs at function exit, after every loop)
+				fnc, isFn := x.Fn.(*ssa.Function)
+				if !isFn || !onlyDeferred(x) {
+					escapes = true
+					break
+				}
+				for i, bnd := range x.Bindings {
+					if bnd == v && i < len(fnc.FreeVars) {
+						fv := fnc.FreeVars[i]
+						if !set[fv] {
+							set[fv] = true
+							work = append(work, fv)
+						}
+					}
+				}
 			default:
 				escapes = true
 			}
@@ -824,4 +842,31 @@ func assignsOnlyParams(con *Contract, fn *ssa.Function) ([]int, bool) {
 		}
 	}
 	return out, n > 0
+}
+
+// onlyDeferred: every use of the closure value is being the callee of a defer statement.
+func onlyDeferred(c *ssa.MakeClosure) bool {
+	refs := c.Referrers()
+	if refs == nil {
+		return false
+	}
+	n := 0
+	for _, r := range *refs {
+		switch x := r.(type) {
+		case *ssa.DebugRef:
+		case *ssa.Defer:
+			if x.Call.Value != c {
+				return false
+			}
+			for _, a := range x.Call.Args {
+				if a == c {
+					return false
+				}
+			}
+			n++
+		default:
+			return false
+		}
+	}
+	return n > 0
 }
